@@ -417,7 +417,7 @@ func c09Nominal(c *c09Case, rank int, r c09CallObs) int64 {
 		return int64(c.WriteMs)
 	case c.Conn == "noread-early" && r.Out == "reply":
 		return int64(c.EarlyMs)
-	case r.Out == "error":
+	case r.Out == "error", r.Out == "oneway":
 		return 0
 	default:
 		return int64(c.eff())
@@ -589,7 +589,7 @@ func c09U(ms int) int { return ms / 10 }
 
 func c09Coq(c *c09Case) string {
 	o := c.Obs
-	if o == nil || o.Fatal != "" || c.OneWay {
+	if o == nil || o.Fatal != "" {
 		return ""
 	}
 	conn := map[string]string{"accept": "CAccept", "refuse": "CRefuse", "stall": "CStall", "accept-close": "CAcceptClose", "noread": "CNoRead", "noread-early": fmt.Sprintf("(CNoReadEarly %d)", c09U(c.EarlyMs))}[c.Conn]
@@ -621,7 +621,7 @@ func c09Coq(c *c09Case) string {
 		})
 	}
 	for _, r := range sorted {
-		cls := map[string]string{"reply": "OReply", "timeout": "OTimeout", "error": "OError"}[r.Out]
+		cls := map[string]string{"reply": "OReply", "timeout": "OTimeout", "error": "OError", "oneway": "OSent"}[r.Out]
 		if cls == "" {
 			cls = "OOther"
 		}
@@ -637,7 +637,7 @@ func c09Coq(c *c09Case) string {
 		case "post":
 			evs = append(evs, fmt.Sprintf("EPost %d", e.Call))
 		case "ret":
-			cls := map[string]string{"reply": "OReply", "timeout": "OTimeout", "error": "OError"}[e.Out]
+			cls := map[string]string{"reply": "OReply", "timeout": "OTimeout", "error": "OError", "oneway": "OSent"}[e.Out]
 			if cls == "" {
 				cls = "OOther"
 			}
@@ -656,9 +656,9 @@ func c09Coq(c *c09Case) string {
 	if c.ObjMax > 0 {
 		objMax = c.ObjMax
 	}
-	return fmt.Sprintf("mkcase (mkcfg %d %d %d %d %d) %s [%s] %d %d %d %d %s %s [%s] [%s] (%d, %d, %d)",
+	return fmt.Sprintf("mkcase (mkcfg %d %d %d %d %d) %s [%s] %d %d %d %d %s %s %s [%s] [%s] (%d, %d, %d)",
 		c09U(c.DialMs), c09U(c.WriteMs), c09U(c.ReadMs), c.QueueLen, objMax, conn, strings.Join(acts, "; "),
-		c.Callers, c.Calls, c09U(c.eff()), c09U(c.GapMs), coqBool(c.Prime && c.Callers > 1), pred, strings.Join(obs, "; "), strings.Join(evs, "; "),
+		c.Callers, c.Calls, c09U(c.eff()), c09U(c.GapMs), coqBool(c.OneWay), coqBool(c.Prime && c.Callers > 1), pred, strings.Join(obs, "; "), strings.Join(evs, "; "),
 		c09NN(o.QueueLen), c09NN(o.InvokeNum), len(o.Pending))
 }
 
@@ -849,15 +849,25 @@ func c09Gen(tier string, rng *rand.Rand) []c09Case {
 		// one-way calls return as soon as the request is queued (monitors only)
 		c = base("one-way", "accept", []c09Act{{Do: "none"}})
 		c.OneWay = true
-		c.Predict = false
-		c.Callers = pick(1, 4, 16)
-		c.Calls = 3
+		c.Calls = pick(2, 4)
+		c.GapMs = 10
+		cs = append(cs, c)
+		c = base("one-way-concurrent", "accept", []c09Act{{Do: "none"}})
+		c.OneWay = true
+		c.Callers = pick(2, 4, 16)
 		cs = append(cs, c)
 		c = base("one-way-refused", "refuse", []c09Act{{Do: "none"}})
 		c.OneWay = true
-		c.Predict = false
 		c.Callers = pick(1, 4)
-		c.Calls = 2
+		cs = append(cs, c)
+		c = base("one-way-never-reading-peer", "noread", []c09Act{{Do: "none"}})
+		c.OneWay = true
+		c.TimeoutMs = 100
+		c.DialMs = 200
+		c.WriteMs = 600
+		c.QueueLen = 1
+		c.Callers = pick(4, 5)
+		c.ReqSize = 8 << 20
 		cs = append(cs, c)
 		// connection establishment: refused, stalled
 		c = base("refused-concurrent", "refuse", []c09Act{{Do: "none"}})
